@@ -53,6 +53,8 @@ def check(ctx, report):
     rsa_key_round_trip(ctx, report, rule='C05.R13')
     from .c08 import dss_key_round_trip
     dss_key_round_trip(ctx, report, rule='C05.R13')
+    from .c08 import dnskey_round_trip
+    dnskey_round_trip(ctx, report, rule='C05.R13')
     from .c18 import name_value_composers
     name_value_composers(ctx, report, rule='C05.R5')
     from .c08 import txt_chunks
